@@ -109,16 +109,16 @@ CLAIMED = {
         "Theorems (Props/C06.v, all closed under the global context): conversion multiplies by the product of "
         "(source/destination)^exponent and keeps the dimension, preserves the SI value, is the identity on the same "
         "system, composes and round-trips exactly, rejects a different dimension; the SI meaning of all 31 base and "
-        "16 derived symbols is proved by closed computation over the finite tables, and three obligations compare the model's tables with "
-        "the code's own (`_units_conversion_dict`, `_units_labels_dict`, avogadro_number(), re-read from the source with ast on every "
-        "run by harness/translate_units.py: same symbols, same kinds, exactly the code's factors in their decimal meaning). The model is tied to units.py on "
+        "16 derived symbols is proved by closed computation over the finite tables, and four obligations compare the model's tables with "
+        "the code's own (`_units_conversion_dict`, `_units_labels_dict`, avogadro_number() and the two if / elif chains nested in parse_units that give litre and molar symbols their base units, re-read from the source with ast on every "
+        "run by harness/translate_units.py: same symbols, same kinds, exactly the code's factors in their decimal meaning; every chain row builds 10^prefix litres / 10^prefix mol per litre). The model is tied to units.py on "
         "every run by an exhaustive sweep of every same-kind symbol pair x exponents -3..3, all derived symbols and all "
         "target forms through the public API, plus sampled (source, via, destination) triples; each comparison is "
         "evaluated inside Coq at relative 1e-12.",
         "Trusted: Coq kernel + VM; the hand-written model of compute_conversion_factor/convert_unitvalue/UnitArray.convert/"
         "parse_units' derived-symbol tables (tied by correspondence, exhaustive on the symbol tables, sampled on triples); "
         "binary64 rounding bounded by the property's own 1e-12; the translator harness/translate_units.py (fail-closed: number literals, "
-        "products, quotients, integer powers and avogadro_number() only); the Python harness.",
+        "products, quotients, integer powers and avogadro_number() only; chains of `param == literal: return literal(s)` ending in a raise only); the Python harness.",
         "DESIGN.md section 6 / C06"),
     "C07": (
         "Coq proof that every event Gillespie's draw can select is legal and keeps the state a vector of non-negative integers, of the selection intervals, propensity positivity and combinatorial factor, and of the waiting-time survival function (Reals) + exact replay of engine runs from the seed (mt19937, generate_canonical, small-mean Poisson modelled in Gallina)",
